@@ -91,8 +91,8 @@ SKIP = {
     "approx": {"approximate_gamma_iqr": "Newton loop over scipy's gammaincinv; modelled by hand in coq/model/ApproxIqr.v",
                "average_gammas": "loop over arrays; not part of C18/C19/C06"},
 }
-FUEL = {"_digamma": 24, "_trigamma": 24}
-FUEL_LOOP = 103          # _KLMIN_MAXITT + 2 iterations are always enough (the loop raises at itt > 100)
+FUEL = {"_digamma": "fuel_rec", "_trigamma": "fuel_rec"}     # constants of ApproxBase.v
+FUEL_LOOP = "fuel_loop"  # ApproxBase.v: 103; the loops raise at itt > 100
 ALLOWED_CLASSES = {"KLMinimizationFailedError", "Invalid2F1"}
 EXC_TAGS = {"KLMinimizationFailedError": "EKLFail"}
 # module constants the translated functions may read: name -> (accepted defining source, value)
@@ -1121,7 +1121,7 @@ class ModuleTranslator:
             out.append(sp + "    match fuel__ with O => Err EFuel | S fuel__ =>")
             out += self.emit_loop(loop_ir, fn, loop, ind + 3)
             out.append(sp + "    end in")
-            out.append(sp + "match %s %d%%nat %s with" % (loop.coqname, FUEL_LOOP, " ".join(carried)))
+            out.append(sp + "match %s %s %s with" % (loop.coqname, FUEL_LOOP, " ".join(carried)))
             out.append(sp + "| Err e__ => Err e__")
             out.append(sp + "| Ok %s =>" % pat(carried))
             out += self.emit(kk, fn, ind + 2)
@@ -1170,7 +1170,7 @@ class ModuleTranslator:
             out.append("  match fuel__ with O => Err EFuel | S fuel__ =>")
             out += self.emit(fn.ir, fn, 2)
             out.append("  end.")
-            out.append("Definition %s %s %s : %s := %s_rec N__ F__ %d%%nat %s." % (
+            out.append("Definition %s %s %s : %s := %s_rec N__ F__ %s %s." % (
                 fn.coqname, glob, params, fn.rtype_coq(), fn.coqname, fn.fuel, " ".join(fn.params)))
         else:
             out.append("Definition %s %s %s : %s :=" % (fn.coqname, glob, params, fn.rtype_coq()))
@@ -1179,29 +1179,25 @@ class ModuleTranslator:
             out += body
         return out
 
-    def emit_module(self, genname):
-        out = ["(* GENERATED by tools/translate.py from tsdate/%s.py -- DO NOT EDIT (rewritten on every check)." % self.modname,
-               "   source sha256 %s *)" % self.sha,
-               "From Coq Require Import ZArith PrimFloat.",
-               "From TsdateV Require Import lib.Num model.ApproxBase%s." % (
-                   "".join(" gen.%s" % e.genname for e in self.externals.values()))]
+    def emit_module(self, genname, frozen=False):
+        if frozen:
+            out = ["(* FROZEN copy of the translator's output for tsdate/%s.py (tools/translate.py --freeze)." % self.modname,
+                   "   gen/GenEq*.v proves, by reflexivity, that the text regenerated on every check is convertible",
+                   "   with this one; source sha256 at freeze time %s *)" % self.sha]
+        else:
+            out = ["(* GENERATED by tools/translate.py from tsdate/%s.py -- DO NOT EDIT (rewritten on every check)." % self.modname,
+                   "   source sha256 %s *)" % self.sha]
+        out += ["From Coq Require Import ZArith PrimFloat.",
+                "From TsdateV Require Import lib.Num model.ApproxBase."]
         out.append("")
         for fn in self.order:
             out += self.emit_fn(fn)
             out.append("")
         if not self.externals:
-            # record of this module's functions, for the modules that call them through `hypergeo.`
-            out.append("(** the functions of this module as seen from approx.py (kept abstract in the")
-            out.append("    equivariance theorems, instantiated by [hypfns] for evaluation) *)")
-            out.append("Record HypFns (N__ : Num) := mkHypFns {")
-            fields = []
-            for fn in self.order:
-                sig = " -> ".join([ty_coq(t) for t in fn.ptys] + [fn.rtype_coq()])
-                fields.append("  h_%s : %s" % (fn.coqname, sig))
-            out.append(";\n".join(fields))
-            out.append("}.")
+            out.append("(** this module's functions packed into the record approx.py is written against")
+            out.append("    (ApproxBase.HypFns); a change of a result type makes this definition ill-typed *)")
             out.append("Definition hypfns (N__ : Num) (F__ : Fns N__) : HypFns N__ :=")
-            out.append("  mkHypFns N__ %s." % " ".join("(%s N__ F__)" % fn.coqname for fn in self.order))
+            out.append("  {| " + ";\n     ".join("h_%s := %s N__ F__" % (fn.coqname, fn.coqname) for fn in self.order) + " |}.")
             out.append("")
         return "\n".join(out) + "\n"
 
@@ -1217,24 +1213,65 @@ def translate_repo(repo):
     return hyp, apx
 
 
-def gen_eq(hyp, apx):
-    """`reflexivity` comparison of every regenerated function with its frozen copy"""
-    out = ["(* GENERATED by tools/translate.py -- DO NOT EDIT.  Every regenerated function is convertible",
-           "   with the frozen copy under coq/model (so any edit to a translated formula is noticed). *)",
+# which regenerated functions each property is about (its frozen-text comparison covers these)
+_MOM = [n for n in TRANSLATE["approx"]
+        if (n.endswith("_moments") and n != "approximate_log_moments" and not n.startswith("_valid")) or n == "moments"]
+_PROJ = [n for n in TRANSLATE["approx"] if n.endswith("_projection")]
+_VALID = [n for n in TRANSLATE["approx"] if n.startswith("_valid_")]
+GROUPS = {
+    "C18": {"hypergeo": ["_betaln", "_hyperu_laplace", "_hyp1f1_laplace", "_hyp2f1_laplace"],
+            "approx": ["approximate_gamma_mom"] + _VALID + _MOM + _PROJ},
+    "C19": {"hypergeo": ["_digamma", "_trigamma", "_betaln"],
+            "approx": ["approximate_log_moments", "approximate_gamma_kl", "approximate_gamma_mom"]},
+    "C06": {"hypergeo": [],
+            "approx": ["approximate_gamma_mom"] + _VALID + _MOM + _PROJ},
+}
+
+
+def gen_eq(hyp, apx, group):
+    """`reflexivity` comparison of the regenerated functions of one property with the frozen copies"""
+    out = ["(* GENERATED by tools/translate.py -- DO NOT EDIT.  Every regenerated function %s is about is" % group,
+           "   convertible with its frozen copy under coq/model (any edit to a translated formula is noticed,",
+           "   also when no theorem happens to pin it). *)",
            "From TsdateV Require Import lib.Num model.ApproxBase gen.HypergeoGen gen.ApproxGen",
            "  model.HypergeoFrozen model.ApproxFrozen.", ""]
+    eqs, lemmas = [], []
     for m, frozen in ((hyp, "HypergeoFrozen"), (apx, "ApproxFrozen")):
-        for fn in m.order:
-            out.append("Lemma eq_%s_%s : @%s.%s = @%s.%s. Proof. reflexivity. Qed." % (
-                m.modname, fn.coqname, m.genname, fn.coqname, frozen, fn.coqname))
+        for name in GROUPS[group][m.modname]:
+            fn = m.fns[name]
+            names = [fn.coqname + "_rec", fn.coqname] if fn.fuel else [fn.coqname]
+            for c in names:
+                eqs.append("(@%s.%s = @%s.%s)" % (m.genname, c, frozen, c))
+                lemmas.append("eq_%s_%s" % (m.modname, c))
+                if fn.fuel and c == fn.coqname:
+                    # f x := f_rec fuel x : rewrite with the equality of the fixpoints instead of
+                    # letting the conversion unroll them
+                    out.append("Lemma eq_%s_%s : @%s.%s = @%s.%s.\nProof. unfold %s.%s, %s.%s. rewrite eq_%s_%s_rec. exact eq_refl. Qed." % (
+                        m.modname, c, m.genname, c, frozen, c, m.genname, c, frozen, c, m.modname, c))
+                else:
+                    out.append("Lemma eq_%s_%s : @%s.%s = @%s.%s. Proof. exact eq_refl. Qed." % (
+                        m.modname, c, m.genname, c, frozen, c))
+    out.append("")
+    out.append("Definition unchanged_%s : Prop :=\n  %s." % (group, "\n  /\\ ".join(eqs)))
+    out.append("Lemma unchanged_%s_holds : unchanged_%s." % (group, group))
+    proof = lemmas[-1]
+    for l in reversed(lemmas[:-1]):
+        proof = "(conj %s %s)" % (l, proof)
+    out.append("Proof. exact %s. Qed." % proof)
     return "\n".join(out) + "\n"
 
 
-def regen(repo=None, out=None, write=True):
+def regen(repo=None, out=None, write=True, freeze=False):
     repo = repo or os.environ.get("VERIF_REPO", "/repo")
     out = out or os.path.join(VERIF, "coq", "gen")
     hyp, apx = translate_repo(repo)
-    files = {"HypergeoGen.v": hyp.emit_module("HypergeoGen"), "ApproxGen.v": apx.emit_module("ApproxGen")}
+    if freeze:
+        files = {"HypergeoFrozen.v": hyp.emit_module("HypergeoFrozen", frozen=True),
+                 "ApproxFrozen.v": apx.emit_module("ApproxFrozen", frozen=True)}
+    else:
+        files = {"HypergeoGen.v": hyp.emit_module("HypergeoGen"), "ApproxGen.v": apx.emit_module("ApproxGen")}
+        for g in GROUPS:
+            files["GenEq%s.v" % g] = gen_eq(hyp, apx, g)
     if write:
         os.makedirs(out, exist_ok=True)
         for name, text in files.items():
@@ -1264,10 +1301,12 @@ if __name__ == "__main__":
     import argparse
     ap = argparse.ArgumentParser()
     ap.add_argument("--repo", default=os.environ.get("VERIF_REPO", "/repo"))
-    ap.add_argument("--out", default=os.path.join(VERIF, "coq", "gen"))
+    ap.add_argument("--out", default=None)
+    ap.add_argument("--freeze", action="store_true",
+                    help="write the frozen copies coq/model/{Hypergeo,Approx}Frozen.v instead of coq/gen")
     a = ap.parse_args()
     try:
-        info = regen(a.repo, a.out)
+        info = regen(a.repo, a.out or os.path.join(VERIF, "coq", "model" if a.freeze else "gen"), freeze=a.freeze)
     except Reject as e:
         print("REJECT:", e)
         sys.exit(2)
